@@ -159,6 +159,15 @@ CHECKS.update({
    design_ref="DESIGN.md §3 C19"),
 })
 
+CHECKS.update({
+ "C09": dict(
+   category="exploration",
+   text="One sweep (2M inputs quick, more thorough) over every parser of untrusted bytes reachable through the door: IPv4/IPv6 header skipping (every version/IHL byte; extension-header chains with hostile lengths, truncated everywhere), ICMP/ICMPv6 deserialisation + reply encoding (every type byte x codes x lengths with quote variants), UDP/ICMP stream decoders under random segmentation, HTTP/1.1 request/response head parsers (all strings of length 4-5 over a 14-symbol alphabet after three prefixes + truncations/mutations of valid heads), ClientHello extractor (all strings of length 6-7 over 7 symbols; every length field of a real hello set to 0/1/max/+-1), SOCKS5 reply readers (all server byte strings of length 4-5 over 8 symbols), settings/credentials/rules/hosts files (products + line mutations), the origin-response translator and the HTTP/1.1 listen loop on mutated inputs. Refutation = panic (caught per case, keyed by parser + source file), non-termination (per-case guards, spin hook, CPU-clock wedge watchdog) or over-pulling. The sweep runs in the release-equivalent profile and again in a checked profile (overflow checks + debug assertions) as a separate binary; thorough adds Miri on the pure parsers incl. the unsafe sockaddr conversions (9 processes, ~10k operations) and the whole sweep under AddressSanitizer (nightly, -Zsanitizer=address).",
+   note="Trusted: per-case catch_unwind (release and checked profiles unwind); Miri cannot cross the BoringSSL/ring/socket FFI, ASan does not instrument the C objects. A clean sanitizer run means no report on these executions, not memory safety.",
+   technique="runtime monitoring + sanitizers: panic/overflow/UB oracles (catch_unwind, checked profile, Miri, ASan) over exhaustive-short and mutation inputs to every parser",
+   design_ref="DESIGN.md §3 C09, §2.5"),
+})
+
 NOT_YET = "check not built yet in this session (designed in DESIGN.md §3; harness work in progress)"
 
 def main():
@@ -183,7 +192,7 @@ def main():
         })
     m = {
         "version": 1,
-        "setup_cmd": "(cd harness && CARGO_NET_OFFLINE=true cargo build --release --offline) && (cd /repo && CARGO_NET_OFFLINE=true cargo build --release --offline -p trusttunnel_endpoint -p trusttunnel_endpoint_tools --target-dir /verif/harness/target/repo-bins)",
+        "setup_cmd": "(cd harness && CARGO_NET_OFFLINE=true cargo build --release --offline) && (cd /repo && CARGO_NET_OFFLINE=true cargo build --release --offline -p trusttunnel_endpoint -p trusttunnel_endpoint_tools --target-dir /verif/harness/target/repo-bins) && (cd harness && CARGO_NET_OFFLINE=true cargo build --profile checked --offline)",
         "hooks": {
             "guard": "cargo feature verif_hooks of crate trusttunnel (lib/Cargo.toml)",
             "enable": "the harness crate /verif/harness depends on /repo/lib by path with features=[\"verif_hooks\"]; ./check rebuilds it from /repo's working tree",
